@@ -55,6 +55,9 @@ Oracle (the property, public accessors only; _c14_impl.oracle_run): each pass up
   following round changes nothing; I1-I6 link consistency, sorted stays sorted, names needed by serialization kept,
   serializable stays serializable; analysis passes (CheckerPass always, ShapeInferencePass when inference fails
   or raises) leave a deep snapshot (initializer order, const_value identity, inputs, shapes, types) unchanged.
+  PassResult arguments: from the second round on every pass is called as r = p(r); the infra stream calls with a Model or
+  PassResult(model, True/False) and requires the same outcome (the flag describes this application only).
+  Opset imports: a domain that nodes (at any depth) still use keeps the opset import it had before the pass.
   Output ownership: a graph output produced by a node must be produced by a node of that very graph (a pass that
   inserts a node for an output puts it into the graph that owns the output); run on dup_output_family().
   No dangling calls: a call that resolved to a model-local function before a pass still resolves after it.
@@ -1376,6 +1379,15 @@ All reported VIOLATION; "replay" = a concrete failing input found by the oracle,
        that may return the same value twice (any depth), dup_output_family() (depth 1, depth 2, both branches, inside a
        function body, mixed with main-graph duplicates and direct inputs) run for every pass, and the new invariant
        "a graph output that a node produces is produced by a node of the graph that lists it" (reported only when new).
+ S8  (seeded/C14-r5m1) PassBase.__call__ carries an incoming PassResult.modified=True into its own result -> FIRST MISSED
+       (every call passed a Model); now: Model.exec_arg / infra_agree_arg (incoming flag ignored; theorem
+       C14_result_argument_flag_ignored), the infra stream calls with a Model or PassResult(m, True/False) and compares
+       with the plain call, and oracle_run repeats passes as r = p(r) from the second round on (spec["_chain"]) ->
+       replay (infra: "result must describe this application only"; built-in passes: no round with modified=False).
+ S9  (seeded/C14-r5m2) RemoveUnusedOpsetsPass looks only at the direct nodes of a graph-like -> FIRST only corr
+       unused_opsets / no-failing-input-found; now replay through the oracle clause "opset-import" (a domain still used
+       by nodes at any depth must keep the import it had) + subgraph_domain_family() (custom domain only inside If
+       bodies at depth 1 and 2 and inside a function body), also fed to the unused_opsets correspondence.
 Also checked: with the four fix commits reverted (old HEAD 823601c) the check reported the six findings
 (KNOWN-FINDING while they were status "known"); with the fixes applied and the old models it reported every
 finding stale + broken correspondences (no false VIOLATION input in 26k oracle evaluations).
